@@ -3,7 +3,7 @@
 # the machinery is copied to a scratch directory (own bin/, evidence/, replays/), the patch is applied in a scratch
 # worktree of /repo and mapped over /repo with go build -overlay. Neither /repo nor /verif is touched.
 set -u
-patch="$(readlink -f "$1")"; id="$2"; tier="${3:-quick}"
+patch="$(readlink -f "$1")"; id="$2"; tier="${3:-quick}"; shift; shift; shift 2>/dev/null || true
 top=/tmp/trymutp.$$; wt=$top/wt; vd=$top/verif
 mkdir -p "$top"
 trap 'cd /; git -C /repo worktree remove --force "$wt" 2>/dev/null; git -C /repo worktree prune; rm -rf "$top"' EXIT
@@ -12,7 +12,7 @@ git -C "$wt" apply "$patch" || { echo "patch does not apply" >&2; exit 9; }
 mkdir -p "$vd"
 rsync -a --exclude '/bin/vcheck*' --exclude '/bin/overlay.*' --exclude /replays --exclude /.git --exclude /seeded /verif/ "$vd"/
 cd "$vd"
-VERIF_ALT_ROOT="$wt" timeout ${MUT_TIMEOUT:-1500} ./run "$id" "$tier" 2>&1 | grep -v '^   ' | cut -c1-${WIDTH:-260} | tail -${TAIL:-12}
+VERIF_ALT_ROOT="$wt" timeout ${MUT_TIMEOUT:-1500} ./run "$id" "$tier" "$@" 2>&1 | grep -v '^   ' | cut -c1-${WIDTH:-260} | tail -${TAIL:-12}
 rc=${PIPESTATUS[0]}
 echo "exit=$rc"
 exit $rc
